@@ -34,7 +34,10 @@ MCallback == LET acc == Accepted(E.a, E.r, E.c) IN
           /\ last' = [op |-> "Callback", a |-> E.a, r |-> E.r, c |-> E.c, accepted |-> acc, effect |-> E.res.effect]
           /\ UNCHANGED <<used, hist>>
 
+SHandOut == IsEvent("HandOut") /\ HandOut(E.a) /\ tasks' = LoggedTasks
+MHandOut == IsEvent("HandOut") /\ last' = [None EXCEPT !.op = "HandOut", !.a = E.a] /\ UNCHANGED <<tasks, used, open, hist>>
 TraceNext == \/ Reset
+             \/ (Strict /\ SHandOut) \/ (~Strict /\ MHandOut)
              \/ (Strict /\ (SIssue \/ SCallback))
              \/ (~Strict /\ (MIssue \/ MCallback))
 TraceSpec == TraceInit /\ [][TraceNext]_tvars
